@@ -25,6 +25,12 @@ claim("C08", "proof",
       "Trusted: rustc MIR + impl/ADT tables, the ccfacts dump, the value-flow engine (may-analysis: 'flows into a formatting argument / branch' is taken as 'appears in the name').",
       "custom MIR value-flow lint over all CustomOperationBody impls (rustc_private driver + Python rules)")
 
+claim("C12", "other",
+      "Decides structural necessary conditions of 'malformed input is an error, not a crash' and of round-trip completeness, exhaustively over the decoder layer (all bodies reachable from Context/Value/CustomOperation deserialize up to the public graph API): no unwrap/expect/panic!/checked-index construct outside a reasoned allow-table (C12.P); every index derived from the deserialized struct is guarded by a comparison of the same datum against len() of a container of the same element type (C12.I); decoded nodes always go through type inference (C12.A); writer, reader and deep-equality cover the same field set and nothing hash-ordered is serialized (C12.F). Deep equality / identical evaluation after a round trip as a behavioural fact is NOT decided.",
+      "DESIGN.md section 3, C12",
+      "Trusted: call-graph over resolved callees (serde-derived visitors are trusted not to panic), the API stop set (robustness of add_node etc. is C09/C11), the allow-table (1 entry) and the derived-field tables printed in the evidence.",
+      "call-graph layer scan + guard-dominance rule on MIR (custom rustc_private lint)")
+
 ALL = ["C%02d" % i for i in range(1, 21)]
 
 def main():
